@@ -17,8 +17,8 @@ def harness_table():
     return "\n".join(out)
 
 def seed_table():
-    out = ["| seeded change | property | needs, to manifest | confirmed (suite ok / demo fails with / passes without) | outcome of the property's quick check | failing obligation |",
-           "|---|---|---|---|---|---|"]
+    out = ["| seeded change | property | needs, to manifest | confirmed (suite ok / demo fails with / passes without) | quick check on a patched copy | same, by the recorded procedure on /repo (replay) | failing obligation |",
+           "|---|---|---|---|---|---|---|"]
     d = os.path.join(V, "seeded")
     for sid in sorted(os.listdir(d)):
         mp = os.path.join(d, sid, "meta.json")
@@ -32,8 +32,11 @@ def seed_table():
         viol = "; ".join(sorted({v["harness_fn"] + ": " + v["assertion"][5:75] for v in chk.get("violated", [])}))[:260]
         if chk.get("outcome") == "inconclusive":
             viol = "; ".join("%s: %s" % (a, b[:80]) for a, b in chk.get("inconclusive", []))[:260]
-        out.append("| `%s` | %s | %s | %s | **%s** | %s |" % (sid, m["property"], m.get("needs_to_manifest", "")[:230], conf,
-                                                         chk.get("outcome", "not run"), viol or m.get("note", "")))
+        onr = m.get("on_repo", {})
+        rp = "; ".join(x.replace("replay: ", "")[:60] for x in onr.get("replay_lines", [])[:1])
+        onrs = ("%s (%ss%s)" % (onr.get("outcome"), onr.get("seconds"), (", " + rp) if rp else "")) if onr else "-"
+        out.append("| `%s` | %s | %s | %s | **%s** | %s | %s |" % (sid, m["property"], m.get("needs_to_manifest", "")[:230], conf,
+                                                              chk.get("outcome", "not run"), onrs, viol or chk.get("why", "") or m.get("note", "")))
     return "\n".join(out)
 
 def main():
